@@ -1,42 +1,157 @@
 package main
 
 import (
+	"flag"
 	"fmt"
 	"os"
-	"go/types"
-
-	"golang.org/x/tools/go/packages"
-	"golang.org/x/tools/go/ssa"
-	"golang.org/x/tools/go/ssa/ssautil"
+	"path/filepath"
+	"runtime"
+	"sort"
+	"strings"
+	"time"
 )
 
-func main() {
-	cfg := &packages.Config{Mode: packages.LoadAllSyntax, Dir: "/repo", BuildFlags: []string{"-tags=verif"}}
-	pkgs, err := packages.Load(cfg, "./...")
+var (
+	repoDir  = "/repo"
+	verifDir = "/verif"
+)
+
+func setup() (*World, error) {
+	w := newWorld()
+	p, err := loadProgram(repoDir)
 	if err != nil {
-		panic(err)
+		return nil, err
 	}
-	prog, spkgs := ssautil.AllPackages(pkgs, ssa.InstantiateGenerics)
-	prog.Build()
-	want := os.Args[1]
-	for _, p := range spkgs {
-		if p == nil {
+	w.prog = p
+	if _, err := w.loadAllSpecs(repoDir, verifDir); err != nil {
+		return nil, err
+	}
+	ts, err := evalTokenStrings()
+	if err != nil {
+		return nil, err
+	}
+	tokenStrings = ts
+	return w, nil
+}
+
+func main() {
+	if len(os.Args) < 2 {
+		fmt.Fprintln(os.Stderr, "usage: spokvc verify|check|list ...")
+		os.Exit(2)
+	}
+	switch os.Args[1] {
+	case "verify":
+		cmdVerify(os.Args[2:])
+	case "check":
+		cmdCheck(os.Args[2:])
+	case "list":
+		w, err := setup()
+		if err != nil {
+			fmt.Fprintln(os.Stderr, err)
+			os.Exit(2)
+		}
+		for _, k := range w.prog.repoFn {
+			mark := " "
+			if _, ok := w.funcSpecs[k]; ok {
+				mark = "*"
+			}
+			fmt.Println(mark, k)
+		}
+	case "ssa":
+		w, err := setup()
+		if err != nil {
+			fmt.Fprintln(os.Stderr, err)
+			os.Exit(2)
+		}
+		for _, k := range os.Args[2:] {
+			if f := w.prog.funcs[k]; f != nil {
+				f.WriteTo(os.Stdout)
+			} else {
+				fmt.Println("no function", k)
+			}
+		}
+	default:
+		fmt.Fprintln(os.Stderr, "unknown command")
+		os.Exit(2)
+	}
+}
+
+func matchKeys(w *World, pats []string) []string {
+	var keys []string
+	for k, s := range w.funcSpecs {
+		if strings.HasPrefix(k, "functype:") || s.Assumed || s.Trusted != "" {
 			continue
 		}
-		for _, m := range p.Members {
-			if f, ok := m.(*ssa.Function); ok && f.Name() == want {
-				f.WriteTo(os.Stdout)
-				for _, a := range f.AnonFuncs { a.WriteTo(os.Stdout) }
-			}
-			if t, ok := m.(*ssa.Type); ok {
-				for _, T := range []types.Type{t.Type(), types.NewPointer(t.Type())} {
-				ms := prog.MethodSets.MethodSet(T)
-				for i := 0; i < ms.Len(); i++ {
-					f := prog.MethodValue(ms.At(i))
-					if f != nil && f.Name() == want && f.Synthetic == "" { f.WriteTo(os.Stdout) }
-				}}
+		if len(pats) == 0 {
+			keys = append(keys, k)
+			continue
+		}
+		for _, p := range pats {
+			if ok, _ := filepath.Match(p, k); ok || p == k || (strings.HasSuffix(p, "*") && strings.HasPrefix(k, strings.TrimSuffix(p, "*"))) {
+				keys = append(keys, k)
+				break
 			}
 		}
 	}
-	fmt.Println("ok")
+	sort.Strings(keys)
+	return keys
 }
+
+func cmdVerify(args []string) {
+	fs := flag.NewFlagSet("verify", flag.ExitOnError)
+	verbose := fs.Bool("v", false, "print every obligation")
+	keep := fs.String("keep", "", "directory to keep queries in")
+	timeout := fs.Int("t", 10, "solver timeout (s)")
+	only := fs.String("only", "", "substring filter on obligation names")
+	fs.Parse(args)
+	start := time.Now()
+	w, err := setup()
+	if err != nil {
+		fmt.Fprintln(os.Stderr, err)
+		os.Exit(2)
+	}
+	fmt.Fprintf(os.Stderr, "loaded in %.1fs\n", time.Since(start).Seconds())
+	keys := matchKeys(w, fs.Args())
+	var obls []*Obligation
+	for _, k := range keys {
+		g := w.verifyFunc(k)
+		for _, o := range g.obls {
+			if *only == "" || strings.Contains(o.Name, *only) {
+				obls = append(obls, o)
+			}
+		}
+	}
+	dir := *keep
+	if dir == "" {
+		dir, _ = os.MkdirTemp("", "spokvc-q-")
+		defer os.RemoveAll(dir)
+	}
+	t0 := time.Now()
+	dischargeAll(w, obls, dir, *timeout, false, runtime.NumCPU())
+	nfail := 0
+	for _, o := range obls {
+		if o.Status != "discharged" {
+			nfail++
+			fmt.Printf("FAIL %-70s %s  [%s] %s\n      %s\n", o.Name, o.Kind, o.Pos, o.Detail, o.Src)
+		} else if *verbose {
+			fmt.Printf("ok   %-70s %s %s %.2fs\n", o.Name, o.Kind, o.Solver, o.Time)
+		}
+	}
+	fmt.Printf("%d functions, %d obligations, %d failed, solve %.1fs\n", len(keys), len(obls), nfail, time.Since(t0).Seconds())
+	if nfail > 0 {
+		os.Exit(1)
+	}
+}
+
+func cmdCheck(args []string) {
+	fmt.Fprintln(os.Stderr, "check: not implemented yet")
+	os.Exit(2)
+}
+
+func init() {
+	if os.Getenv("SPOKVC_DEBUGKEYS") != "" {
+		debugKeys = true
+	}
+}
+
+var debugKeys bool
